@@ -4,6 +4,8 @@ package zzvrf
 
 import (
 	"fmt"
+	"runtime"
+	"strings"
 	"time"
 )
 
@@ -13,6 +15,12 @@ import (
 // fall back to the real clock.
 func init() {
 	time.VerifNowHook = func() (int64, int64, bool) {
+		if !nowEligible() {
+			return 0, 0, false // library code (e.g. log timestamps) sees the real clock
+		}
+		if ClockSchedHook != nil {
+			ClockSchedHook()
+		}
 		mu.Lock()
 		defer mu.Unlock()
 		if model == nil {
@@ -25,5 +33,23 @@ func init() {
 		}
 		counts["clk"] = k + 1
 		return int64(w), int64(model[fmt.Sprintf("clk.mono#%d", k)]), true
+	}
+}
+
+// nowEligible: only clock readings taken directly by github.com/tikv/pd/... code are
+// part of the model (the executor never runs the logging libraries).
+func nowEligible() bool {
+	var pcs [16]uintptr
+	n := runtime.Callers(2, pcs[:])
+	frames := runtime.CallersFrames(pcs[:n])
+	for {
+		f, more := frames.Next()
+		name := f.Function
+		if !strings.HasPrefix(name, "time.") && !strings.Contains(name, "zzvrf.init") && !strings.Contains(name, "zzvrf.nowEligible") {
+			return strings.HasPrefix(name, "github.com/tikv/pd/")
+		}
+		if !more {
+			return false
+		}
 	}
 }
